@@ -1,6 +1,6 @@
 (* Single entry point of the executable model: function number, then its arguments. *)
 From Coq Require Import List ZArith.
-From PGA Require Import Wire WireCont WireMisc WireDissim WireAlign2 WireFast.
+From PGA Require Import Wire WireCont WireMisc WireDissim WireAlign2 WireFast WireSampler.
 Import ListNotations.
 Local Open Scope Z_scope.
 
@@ -14,6 +14,7 @@ Definition run (s : list Z) : list Z :=
     else if f <? 400 then run_dissim (Z.to_nat (f - 300)) r
     else if f <? 500 then run_align2 (Z.to_nat (f - 400)) r
     else if f <? 600 then run_fast (Z.to_nat (f - 500)) r
+    else if f <? 700 then run_sampler (Z.to_nat (f - 600)) r
     else [-2]
   | [] => [-3]
   end.
